@@ -2,13 +2,17 @@
 C15 — Text parsing inverts formatting and never wraps out-of-range numbers.
 
 Integer part: executable models of strconv.ParseInt/ParseUint (base 0) and FormatInt, parseNumber,
-the integral-slice parsers.  Collection part: token-level models of splitStringsSlice / splitMap;
-the token stream of the printed text is an assumption (text/scanner, strconv.Quote/Unquote), and
-floats, complex numbers, durations and bools rest on strconv / time (sampled by the correspondence).
+the integral-slice parsers.  Collection part: token-level models of splitStringsSlice / splitMap
+(`C15_*_tokens`), and - for ASCII strings - a character-level model of strconv.Quote, of text/scanner as the
+two split functions configure it and of strconv.Unquote (Model/Scan.lean, tied to the real token stream by the
+correspondence), so that the `C15_*_text` theorems go from the printed TEXT to the value.  For non-ASCII
+strings the token stream of the printed text remains an assumption; floats, complex numbers, durations and
+bools rest on strconv / time (sampled by the correspondence).
 -/
 import DialsModel.Model.ParseInt
 import DialsModel.Model.Split
 import DialsModel.Lemmas.Parse
+import DialsModel.Lemmas.Scan
 
 namespace Dials.C15
 open Dials Dials.Parse
@@ -198,9 +202,96 @@ theorem C15_empty_key_counterexample (v : S) :
     mapStringString (canonMap [([], v)]) = .err "unexpected colon" := by
   simp [mapStringString, canonMap, splitMapWith]
 
+/-! ### from the printed text (ASCII strings: every control character, quote, backslash, comma, colon) -/
+
+/-- strconv.Unquote after the scanner inverts strconv.Quote: the quoted form of any ASCII string, followed by
+anything, is scanned as ONE string token - the scanner stops at the quote that Quote wrote - whose value is the
+string. -/
+theorem C15_quote_scans_back (m : Bool) (z : S) (hz : z.all isAscii = true) (rest : List Char) :
+    ∃ cs, quote z ++ rest = '"' :: cs ∧ scanTok m '"' cs = .tok (.str (some z)) rest := by
+  refine ⟨quoteBody z ++ '"' :: rest, by simp [quote], ?_⟩
+  simp [scanTok, identRune_quote, scanStrBody_quoteBody z hz, unqBody_quoteBody z hz]
+
+/-- The printed text of a string slice is scanned as the canonical token stream. -/
+theorem C15_slice_text_scans (zs : List S) (hz : ∀ z ∈ zs, z.all isAscii = true) :
+    scanText false (printSlice zs) = some (canonSlice zs) := by
+  rw [printSlice_render, canonSlice_pieces]
+  exact scanText_render false _ (slicePieces_ok false zs hz)
+
+/-- String slices, from the text: what StringSliceFlag.String prints for any list of ASCII strings (any length,
+any characters) parses back to exactly that list. -/
+theorem C15_slice_text (zs : List S) (hz : ∀ z ∈ zs, z.all isAscii = true) :
+    sliceText (printSlice zs) = some (.ok zs) := by
+  cases zs with
+  | nil => simp [sliceText, printSlice]
+  | cons x xs =>
+    have hne : (printSlice (x :: xs)).isEmpty = false := by
+      cases xs <;> simp [printSlice, quote]
+    simp only [sliceText, hne, C15_slice_text_scans _ hz, Option.map_some, stringSlice]
+    simpa using C15_slice_tokens (x :: xs)
+
+/-- String sets, from the text (elements in the order printed, no repetition). -/
+theorem C15_set_text (zs : List S) (hz : ∀ z ∈ zs, z.all isAscii = true) (hnd : zs.Nodup) :
+    setText (printSlice zs) = some (.ok zs) := by
+  cases zs with
+  | nil => simp [setText, printSlice]
+  | cons x xs =>
+    have hne : (printSlice (x :: xs)).isEmpty = false := by
+      cases xs <;> simp [printSlice, quote]
+    simp only [setText, hne, C15_slice_text_scans _ hz, Option.map_some, stringSet]
+    simpa using C15_set_tokens (x :: xs) hnd
+
+/-- The printed text of a map is scanned as the canonical token stream (splitMap's scanner: the colon is a token). -/
+theorem C15_map_text_scans (kvs : List (S × S)) (hz : ∀ p ∈ kvs, p.1.all isAscii = true ∧ p.2.all isAscii = true) :
+    scanText true (printMap kvs) = some (canonMap kvs) := by
+  rw [printMap_render, canonMap_pieces]
+  exact scanText_render true _ (mapPieces_ok kvs hz)
+
+/-- String maps, from the text: distinct non-empty ASCII keys, any ASCII values. -/
+theorem C15_map_text (kvs : List (S × S)) (hz : ∀ p ∈ kvs, p.1.all isAscii = true ∧ p.2.all isAscii = true)
+    (hk : (kvs.map (·.1)).Nodup) (hne : ∀ p ∈ kvs, p.1 ≠ []) :
+    mapText (printMap kvs) = some (.ok kvs) := by
+  simp only [mapText, C15_map_text_scans kvs hz, Option.map_some, C15_map_tokens kvs hk hne]
+
+/-- String-to-string-slice maps, from the text: every printed pair comes back, in order. -/
+theorem C15_multimap_text (kvs : List (S × S)) (hz : ∀ p ∈ kvs, p.1.all isAscii = true ∧ p.2.all isAscii = true)
+    (hne : ∀ p ∈ kvs, p.1 ≠ []) :
+    multiMapText (printMap kvs) = some (.ok kvs) := by
+  simp only [multiMapText, C15_map_text_scans kvs hz, Option.map_some, C15_multimap_tokens kvs hne]
+
+/-- non-vacuity and the characters the property names: commas, colons, quotes, backslashes, control characters
+(incl. NUL, newline, DEL) inside the strings, the empty string, evaluated through the whole text path -/
+theorem C15_text_examples :
+    sliceText (printSlice ["a,b".toList, "q\"uote".toList, "back\\slash".toList, [], [Char.ofNat 0, '\n', Char.ofNat 127, '\t']])
+      = some (.ok ["a,b".toList, "q\"uote".toList, "back\\slash".toList, [], [Char.ofNat 0, '\n', Char.ofNat 127, '\t']]) ∧
+    mapText (printMap [("host:port".toList, "a:1,b:2".toList), ("k".toList, [])])
+      = some (.ok [("host:port".toList, "a:1,b:2".toList), ("k".toList, [])]) ∧
+    printSlice ["a\"b".toList, [Char.ofNat 1]] = "\"a\\\"b\",\"\\x01\"".toList := by
+  refine ⟨C15_slice_text _ (by decide), C15_map_text _ (by decide) (by decide) (by decide), by decide⟩
+
+/-- what the scanner model does with text that is NOT a printed form (behaviour the correspondence compares with the
+real scanner): a space inside a bare word belongs to the word, a NUL character is an error as soon as it is READ - the
+token before it is lost with it -, `\'` is no escape in a double-quoted literal, `\400` scans but does not unquote -/
+theorem C15_scanner_examples :
+    scanText false "a b, c".toList = some [.word "a b".toList, .comma, .word "c".toList, .eof] ∧
+    scanText false [ 'a', ',', Char.ofNat 0 ] = some [.word ['a'], .scanErr] ∧
+    scanText false "\"\\'\"".toList = some [.scanErr] ∧
+    scanText false "\"\\400\"".toList = some [.str none, .eof] ∧
+    scanText true "k:`r\\n`".toList = some [.word ['k'], .colon, .str (some "r\\n".toList), .eof] := by
+  refine ⟨by decide, by decide, by decide, by decide, by decide⟩
+
 /-- regenerated facts F13 -/
 theorem C15_facts : Facts.parseNumberBits = 64 ∧ Facts.parseNumberChecksOverflow = true ∧
     Facts.intSliceElementBits = true ∧ Facts.intSliceEmptyOk = true := by
   exact ⟨rfl, rfl, rfl, rfl⟩
+
+/-- regenerated fact F13s: what the two custom IsIdentRune functions refuse outright (the colon only in splitMap) -/
+theorem C15_scanner_facts :
+    Facts.sliceIdentDeny = [92, 44, 34, 39, 96, 0] ∧ Facts.mapIdentDeny = [92, 44, 34, 39, 96, 0, 58] ∧
+    (∀ m, identRune m '"' = false ∧ identRune m ',' = false ∧ identRune m '\\' = false ∧ identRune m NUL = false) ∧
+    identRune true ':' = false ∧ identRune false ':' = true := by
+  refine ⟨rfl, rfl, ?_, by decide, by decide⟩
+  intro m
+  cases m <;> decide
 
 end Dials.C15
